@@ -77,6 +77,9 @@ ATTRS = ['Object Type', 'State', 'Cryptographic Usage Mask']
 PSEUDO = ('Version', 'Restart', 'Batch', 'Clock')
 VERSIONS = [(1, 2), (1, 3), (1, 4), (2, 0)]       # the versions under which every operation of the alphabet exists
 ALLBITS = sum(e.value for e in M)
+ALGS = [a.name for a in ALG]                 # every member: a stored key may carry any of them as its own algorithm
+CREATABLE = {'AES': (ALG.AES, 128), 'AES256': (ALG.AES, 256), 'TRIPLE_DES': (ALG.TRIPLE_DES, 192), 'BLOWFISH': (ALG.BLOWFISH, 128),
+             'CAMELLIA': (ALG.CAMELLIA, 256), 'CAST5': (ALG.CAST5, 128)}
 
 
 def mask_list(m):
@@ -91,14 +94,21 @@ def make_material():
     return {'pub': (bytes(pub['value']), pub['format'].name), 'priv': (bytes(priv['value']), priv['format'].name)}
 
 
-def secret_for(tname, mat):
+def secret_for(tname, mat, alg=None):
+    """A secret of the stored type; `alg` = the key's OWN Cryptographic Algorithm (any member: Register stores any)."""
     K = enums.KeyFormatType
     ot = TYPES[tname]
+    if alg is not None and tname == 'SymmetricKey':
+        return kdrv.symmetric_key_secret(b'\x0f' * 16, ALG[alg], 128)
+    if alg is not None and tname == 'SplitKey':
+        return kdrv.core_secret(ot, cryptographic_algorithm=ALG[alg], cryptographic_length=128, key_format_type=K.RAW,
+                                key_value=b'\x33' * 16, key_wrapping_data=None, split_key_parts=3, key_part_identifier=1,
+                                split_key_threshold=2, split_key_method=enums.SplitKeyMethod.XOR, prime_field_size=None)
     if tname == 'PublicKey':
-        return kdrv.core_secret(ot, cryptographic_algorithm=ALG.RSA, cryptographic_length=1024,
+        return kdrv.core_secret(ot, cryptographic_algorithm=(ALG[alg] if alg else ALG.RSA), cryptographic_length=1024,
                                 key_format_type=K[mat['pub'][1]], key_value=mat['pub'][0], key_wrapping_data=None)
     if tname == 'PrivateKey':
-        return kdrv.core_secret(ot, cryptographic_algorithm=ALG.RSA, cryptographic_length=1024,
+        return kdrv.core_secret(ot, cryptographic_algorithm=(ALG[alg] if alg else ALG.RSA), cryptographic_length=1024,
                                 key_format_type=K[mat['priv'][1]], key_value=mat['priv'][0], key_wrapping_data=None)
     if tname == 'Certificate':      # 24 bytes: a length the RFC 3394 key wrap accepts
         return kdrv.secret_for(ot, b'\x30\x82\x01' + b'\x44' * 21)
@@ -205,13 +215,15 @@ class Runner:
         u = self.uid
         if kind == 'Foreign':       # the inner operation, sent by another identity (see run_single)
             return self.build(tuple(op[1]))
-        if kind == 'Create':
-            return kdrv.create(ALG.AES, 128, mask_list(op[1]))
+        if kind == 'Create':        # optional own algorithm (one the crypto engine can generate a key for) and length
+            a, n = CREATABLE[op[2]] if len(op) > 2 and op[2] else (ALG.AES, 128)
+            return kdrv.create(a, n, mask_list(op[1]))
         if kind == 'CreateKeyPair':
             return kdrv.create_key_pair(ALG.RSA, 1024, public_mask=mask_list(op[1]), private_mask=mask_list(op[2]))
         if kind == 'Register':
             t = op[1]
-            return kdrv.register(TYPES[t], secret=secret_for(t, self.mat), mask=(mask_list(op[2]) if t != 'OpaqueData' else None))
+            return kdrv.register(TYPES[t], secret=secret_for(t, self.mat, op[3] if len(op) > 3 else None),
+                                 mask=(mask_list(op[2]) if t != 'OpaqueData' else None))
         if kind == 'Activate':
             return kdrv.activate(u(op[1]))
         if kind == 'Revoke':
@@ -246,7 +258,7 @@ class Runner:
             dp = cattrs.DerivationParameters(
                 cryptographic_parameters=kdrv.crypto_params(hashing_algorithm=enums.HashingAlgorithm.SHA_256))
             return kdrv.derive_key([u(k) for k in op[1]], enums.DerivationMethod.HASH, dp,
-                                   kdrv.sym_attrs(ALG.AES, 128, mask_list(op[2])))
+                                   kdrv.sym_attrs(ALG[op[3]] if len(op) > 3 and op[3] else ALG.AES, 128, mask_list(op[2])))
         if kind == 'GetWrap':
             spec = cobjects.KeyWrappingSpecification(
                 wrapping_method=enums.WrappingMethod.ENCRYPT,
@@ -668,6 +680,29 @@ def grid():
     return out
 
 
+def algorithm_family(tier):
+    """Every CryptographicAlgorithm member as the OWN algorithm of the key used in every cryptographic operation, with a
+    mask that lacks exactly the bit the operation needs (and, thorough, one that has only that bit / everything)."""
+    out = []
+    uses = [('SymmetricKey', ('Encrypt', 0, T), 'ENCRYPT'), ('SymmetricKey', ('Decrypt', 0, T), 'DECRYPT'),
+            ('SymmetricKey', ('MAC', 0, T, T), 'MAC_GENERATE'), ('SymmetricKey', ('MAC', 0, False, T), 'MAC_GENERATE'),
+            ('SymmetricKey', ('GetWrap', 1, 0), 'WRAP_KEY'), ('SymmetricKey', ('DeriveKey', [0], FULL), 'DERIVE_KEY'),
+            ('PrivateKey', ('Sign', 0, T), 'SIGN'), ('PublicKey', ('SignatureVerify', 0, T), 'VERIFY'),
+            ('PrivateKey', ('DeriveKey', [0], FULL), 'DERIVE_KEY'), ('SplitKey', ('MAC', 0, False, T), 'MAC_GENERATE')]
+    for a in ALGS:
+        for t, use, bit in uses:
+            classes = [ALLBITS & ~BIT[bit]] + ([BIT[bit], FULL] if tier == 'thorough' else [])
+            for m in classes:
+                out.append(('algorithms', [('Register', t, m, a), ('Create', FULL), ('Activate', 1), ('Activate', 0), use]))
+        # a key derived with this algorithm attribute, then used without the bits
+        out.append(('algorithms', [('Create', FULL), ('DeriveKey', [0], ALLBITS & ~BIT['MAC_GENERATE'] & ~BIT['ENCRYPT'], a),
+                                   ('Activate', 1), ('MAC', 1, False, T), ('MAC', 1, T, T), ('Encrypt', 1, T)]))
+    for c in CREATABLE:
+        out.append(('algorithms', [('Create', ALLBITS & ~BIT['MAC_GENERATE'] & ~BIT['ENCRYPT'], c), ('Activate', 0),
+                                   ('MAC', 0, False, T), ('Encrypt', 0, T), ('Decrypt', 0, T)]))
+    return out
+
+
 def batch_family():
     """Create/Register/CreateKeyPair and lifecycle + use of the new object through the ID placeholder in ONE request."""
     out = []
@@ -744,14 +779,17 @@ def random_history(rng, length):
                 length += 1
                 continue
             if q < 0.4:
-                ops.append(('Create', rmask()))
+                ops.append(('Create', rmask(), rng.choice(list(CREATABLE))) if rng.random() < 0.3 else ('Create', rmask()))
                 objs.append('SymmetricKey')
             elif q < 0.55 and len(objs) < 6:
                 ops.append(('CreateKeyPair', rmask(), rmask()))
                 objs += ['PublicKey', 'PrivateKey']
             else:
                 t = rng.choice(list(TYPES))
-                ops.append(('Register', t, rmask()))
+                if t in ('SymmetricKey', 'PublicKey', 'PrivateKey', 'SplitKey') and rng.random() < 0.5:
+                    ops.append(('Register', t, rmask(), rng.choice(ALGS)))      # any own algorithm
+                else:
+                    ops.append(('Register', t, rmask()))
                 objs.append(t)
         elif r < 0.04 + 0.12 and len(objs) >= 2:
             # several operations on existing objects in one request
@@ -784,7 +822,7 @@ def random_history(rng, length):
             ops.append(('MAC', pick(), rng.random() < 0.7, rng.random() < 0.9))
         elif r < 0.93 and len(objs) < 7:
             n = rng.choice([1, 1, 1, 2, 2, 3, 0]) if rng.random() < 0.5 else 1
-            ops.append(('DeriveKey', [pick_type(['SymmetricKey', 'SecretData', 'PrivateKey', 'PublicKey']) for _ in range(n)], rmask()))
+            ops.append(('DeriveKey', [pick_type(['SymmetricKey', 'SecretData', 'PrivateKey', 'PublicKey']) for _ in range(n)], rmask()) + ((rng.choice(ALGS),) if rng.random() < 0.4 else ()))
             objs.append('SymmetricKey')      # if it succeeds; otherwise the offsets of the generator drift, which is harmless
         else:
             ops.append(('GetWrap', pick(), pick_type(['SymmetricKey'])))
@@ -801,6 +839,7 @@ def all_histories(ctx):
             hs.append((name, list(setup) + list(seq)))
     hs += grid()
     hs += batch_family()
+    hs += algorithm_family(ctx.tier)
     rng = ctx.subrng('histories')
     n = 800 if ctx.tier == 'thorough' else 130
     for i in range(n):
